@@ -30,11 +30,22 @@ func CalculateBackoff(cfg BackoffConfig, attempt int) time.Duration {
 	if backoff > float64(cfg.MaxBackoff) {
 		backoff = float64(cfg.MaxBackoff)
 	}
+	// A zero initial backoff times an overflowing power is NaN (0 x +Inf), and a
+	// negative multiplier or limit gives a negative product: the backoff is
+	// never negative.
+	if math.IsNaN(backoff) || backoff < 0 {
+		backoff = 0
+	}
 
 	jitterAmount := backoff * cfg.Jitter * (rand.Float64()*2 - 1)
 	finalBackoff := backoff + jitterAmount
 	if finalBackoff < 0 {
 		finalBackoff = backoff
+	}
+	// A limit close to the largest Duration plus jitter does not fit into a
+	// Duration (the conversion of such a float would come out negative).
+	if finalBackoff >= float64(math.MaxInt64) {
+		return time.Duration(math.MaxInt64)
 	}
 	return time.Duration(finalBackoff)
 }
